@@ -1,6 +1,9 @@
 package main
 
-import "fmt"
+import (
+	"fmt"
+	"strings"
+)
 
 const metricsPkg = "github.com/google/mtail/internal/metrics"
 
@@ -186,31 +189,51 @@ func exporterJob(entry string, nm, symlabels int, bound string) JobDef {
 		Bound: bound}
 }
 
+// withMaxLV bounds the label sets per metric of an exporter job (default 2).
+func withMaxLV(j JobDef, maxlv int) JobDef {
+	j.Name += fmt.Sprintf("-l%d", maxlv)
+	j.Params["maxlv"] = int64(maxlv)
+	j.Bound = strings.Replace(j.Bound, "0..2 label sets", fmt.Sprintf("0..%d label sets", maxlv), 1)
+	return j
+}
+
 func init() {
-	storeBound := "store of %d metric(s), each of any kind/type (counter int/float, gauge, timer, text, histogram), 0..1 keys, 0..2 label sets with symbolic values, timestamps and (Prometheus job) 0..1-byte label values"
+	storeBound := "store of %d metric(s), each of any kind/type (counter int/float, gauge, timer, text, histogram), 0..1 keys, 0..2 label sets with symbolic values, timestamps and (Prometheus job) 0..1-byte label values; in the Prometheus job the key is either a valid label name (key_a) or one the client library refuses (key-a)"
 	as := append([]string{
-		"prometheus.NewDesc/NewConstMetric/NewConstHistogram/NewMetricWithTimestamp are recording stubs that may fail at any call (a superset of the client library's refusals: invalid name, duplicate label name, non-UTF-8 value); natively replayed by rewriting the constructor call sites to fault-injecting wrappers around the real constructors",
+		"prometheus.NewDesc/NewConstMetric/NewConstHistogram/NewMetricWithTimestamp are recording stubs that fail exactly where client_golang v1.20 / common v0.60 (legacy name validation) refuses a sample - invalid metric name, invalid, reserved or duplicate label name, wrong label count, label value that is not valid UTF-8 (one SMT condition over the symbolic bytes) - and additionally at any solver-chosen call; natively replayed by rewriting the constructor call sites to fault-injecting wrappers around the real constructors, so every validated path compares the model's refusals with the real library's",
 		"the push connection and the HTTP response writer are harness types whose writes fail / cancel the request at solver-chosen calls; EmitLabelSets runs in an interpreted goroutine under the deterministic scheduler; lock and goroutine state are read from the engine's lock table / goroutine table",
 		"Store.Range iterates metrics in insertion order (Go map order is not explored)",
 	}, baseAssumptions...)
 	register(&CheckDef{ID: "C12", Level: "model_checking", Only: []string{"C12."}, Assumptions: as,
 		Jobs: func(tier string) []JobDef {
-			nm := 1
+			jobs := func(nm int) []JobDef {
+				b := fmt.Sprintf(storeBound, nm)
+				return []JobDef{
+					exporterJob("HarnessC12Prom", nm, 0, b+"; every subset of constructor calls refused"),
+					exporterJob("HarnessC12Socket", nm, 0, b+"; graphite/statsd/collectd push formatters; the connection fails at any write"),
+					exporterJob("HarnessC12HTTP", nm, 0, b+"; varz and graphite handlers; request cancelled before the export or at any write"),
+				}
+			}
 			if tier == "thorough" {
-				nm = 2
+				// one metric with up to 3 label sets, and two metrics with up
+				// to 1 label set each (two metrics x 2 label sets is ~10^8
+				// paths: outside the budget, stated as outside the claim)
+				var out []JobDef
+				for _, j := range jobs(1) {
+					out = append(out, withMaxLV(j, 3))
+				}
+				for _, j := range jobs(2) {
+					out = append(out, withMaxLV(j, 1))
+				}
+				return out
 			}
-			b := fmt.Sprintf(storeBound, nm)
-			return []JobDef{
-				exporterJob("HarnessC12Prom", nm, 0, b+"; every subset of constructor calls refused"),
-				exporterJob("HarnessC12Socket", nm, 0, b+"; graphite/statsd/collectd push formatters; the connection fails at any write"),
-				exporterJob("HarnessC12HTTP", nm, 0, b+"; varz and graphite handlers; request cancelled before the export or at any write"),
-			}
+			return jobs(1)
 		},
-		Outside: []string{"the real net.Conn / HTTP server", "JSON export (no per-metric lock is taken there)", "more metrics than the bound"}})
+		Outside: []string{"the real net.Conn / HTTP server", "JSON export (no per-metric lock is taken there)", "more metrics / label sets than the bound (in particular two metrics with two label sets each)"}})
 	register(&CheckDef{ID: "C13", Level: "model_checking", Only: []string{"C13."}, Assumptions: as,
 		Jobs: func(tier string) []JobDef {
 			if tier == "thorough" {
-				return []JobDef{exporterJob("HarnessC12Prom", 2, 1, fmt.Sprintf(storeBound, 2)), exporterJob("HarnessC12Prom", 1, 1, fmt.Sprintf(storeBound, 1))}
+				return []JobDef{exporterJob("HarnessC12Prom", 1, 1, fmt.Sprintf(storeBound, 1)), withMaxLV(exporterJob("HarnessC12Prom", 2, 1, fmt.Sprintf(storeBound, 2)), 1)}
 			}
 			return []JobDef{exporterJob("HarnessC12Prom", 1, 1, fmt.Sprintf(storeBound, 1))}
 		},
@@ -228,7 +251,7 @@ func init() {
 		},
 		Assumptions: append([]string{
 			"fmt.Sprintf/Fprintf are engine models: %s/%v/%d/%g of symbolic numbers become opaque formatted pieces that are equal iff their arguments are (injectivity of strconv's shortest formatting; NaNs equal); strings.ReplaceAll/Join and sort.Strings are engine models",
-			"metamorphic oracle: the record for label set 2 of a two-label-set metric must equal the record of a metric holding only that label set; well-formedness of a single record is what the repository's golden tests pin",
+			"metamorphic oracle: the record for label set 2 of a two-label-set metric must equal the record of a metric holding only that label set; well-formedness of a single record is what the repository's golden tests pin; records are compared as sets of lines (graphite histogram lines are written while ranging over a Go map: natively sorted before comparison, in the engine both records iterate in the same insertion order)",
 			"flag values (graphite/statsd/collectd prefixes) are their defaults",
 		}, baseAssumptions...),
 		Outside: []string{"JSON export and Store.MarshalJSON round trip (encoding/json reflection is not executed symbolically)", "push transport", "label values containing separator characters (excluded by the property)"}})
